@@ -48,6 +48,26 @@ static void sern_lines(const cbor_item_t* item, size_t size, const unsigned char
     size_t c[] = {0, 1, 2, size / 2, size - 2, size - 1, size, size + 1, size + 2, size + 17};
     for (int i = 0; i < 10; i++) ns[k++] = c[i];
   }
+  { /* a caller that does not know how much room it has claims "unbounded": the result is still the size, and only `size` bytes are written */
+    static const size_t claims[] = {SIZE_MAX, SIZE_MAX - 1, SIZE_MAX / 2 + 1, (size_t)1 << 47, (size_t)1 << 32};
+    size_t worst = size;
+    int over = 0;
+    unsigned char lastout[48];
+    memset(lastout, 0, sizeof lastout);
+    for (unsigned ci = 0; ci < sizeof claims / sizeof *claims && size > 0 && size < (1 << 20); ci++) {
+      unsigned char* f = malloc(size + 64);
+      memset(f, 0xA5, size + 64);
+      size_t r = cbor_serialize(item, f, claims[ci]);
+      if (r != size) worst = r;
+      for (size_t j = size; j < size + 64; j++) if (f[j] != 0xA5) over = 1;
+      if (r == size && ref && memcmp(f, ref, size)) over = 1;
+      if (size <= 48) memcpy(lastout, f, size);
+      free(f);
+    }
+    fprintf(vh_out, "{\"e\":\"sern\",\"n\":%zu,\"ret\":%zu,\"ret2\":%zu,\"over\":%s", size + 1000, worst, worst, over ? "true" : "false");
+    if (size <= 48 && worst == size && size > 0 && size < (1 << 20)) vh_kbytes("out", lastout, size); else fputs(",\"out\":[]", vh_out);
+    fputs(",\"outsame\":true}\n", vh_out);
+  }
   for (int i = 0; i < k; i++) {
     size_t n = ns[i];
     /* (a) framed buffer: sentinel before and after the n-byte window, to see writes outside it */
@@ -94,7 +114,15 @@ static void copy_line(cbor_item_t* src, const unsigned char* ref, size_t size) {
   static const void* a1[1 << 14];
   static const void* a2[1 << 14];
   long rq0 = va.requests;
+#if defined(__x86_64__) || defined(__i386__)
+  /* the copy is made with the FPU in flush-to-zero / denormals-are-zero mode: copying moves bits, it does not compute */
+  unsigned csr_saved = __builtin_ia32_stmxcsr();
+  __builtin_ia32_ldmxcsr(csr_saved | 0x8040u);
+#endif
   cbor_item_t* cp = cbor_copy(src);
+#if defined(__x86_64__) || defined(__i386__)
+  __builtin_ia32_ldmxcsr(csr_saved);
+#endif
   long copy_requests = va.requests - rq0;
   fputs("{\"e\":\"copy\"", vh_out);
   vh_kbool("ok", cp != NULL);
@@ -242,10 +270,21 @@ int main(int argc, char** argv) {
       if (it) ser_case(it, "api");
     }
     /* a few wide ones: 2k-member containers (growth path, 2-byte counts) */
-    for (int k = 0; k < 2; k++) {
+    for (int k = 0; k < 4; k++) {
       case_live0 = va.live;
-      cbor_item_t* big = k ? cbor_new_indefinite_array() : cbor_new_definite_array(2100);
-      for (int i = 0; i < 2100; i++) {
+      int members = k < 2 ? 2100 : 4100; /* (4100: on the far side of 4096) */
+      if (k == 3) { /* a definite map of 4100 pairs */
+        cbor_item_t* bm = cbor_new_definite_map(4100);
+        for (int i = 0; i < 4100; i++) {
+          cbor_item_t* x = cbor_build_uint16((uint16_t)i);
+          (void)cbor_map_add(bm, (struct cbor_pair){.key = x, .value = x});
+          cbor_decref(&x);
+        }
+        ser_case(bm, "wide");
+        continue;
+      }
+      cbor_item_t* big = k == 1 ? cbor_new_indefinite_array() : cbor_new_definite_array((size_t)members);
+      for (int i = 0; i < members; i++) {
         cbor_item_t* x = cbor_build_uint16((uint16_t)i);
         (void)cbor_array_push(big, x);
         cbor_decref(&x);
